@@ -71,6 +71,31 @@ def generate(rng, tier, idx):
         sc['hwm'] = rng.choice([None, None, 1024, 65536, 4099])
         sc['pace'] = gen_pace(rng, sc['has_header'])
         return sc
+    if r < 0.10:
+        # a few KiB delivered as a mixture of tiny and large (>= 1 KiB) chunks: what a pipe does with `(head -1 f; tail -n +2 f)`
+        unit = c12.gen_text(rng, rng.choice([7, 23, 60]))
+        if '\n' not in unit and '\r' not in unit:
+            unit += rng.choice(['\n', '\r\n'])
+        text = (unit * (rng.choice([2500, 4000, 6000]) // max(1, len(unit)) + 1))
+        sc['text'] = text
+        sc['mode'] = 'stream'
+        sc['pace'] = gen_pace(rng, sc['has_header'])
+        sc['timing_pattern'] = [rng.choice(TIMINGS) for _ in range(rng.choice([1, 2, 3]))]
+        sc['hwm'] = rng.choice([None, None, 16, 1024])
+        nb = len(text.encode('utf-8'))
+        parts = set()
+        for _ in range(10):
+            pieces = []
+            left = nb
+            while left > 0:
+                k = rng.choice([1, 2, 3, 10, 100, 900, 1023, 1024, 1025, 1500, 2048])
+                k = min(k, left)
+                pieces.append(k)
+                left -= k
+            parts.add(tuple(pieces))
+        parts.add((nb,))
+        sc['partitions'] = sorted(list(p) for p in parts)
+        return sc
     n = rng.choice([0, 1, 2, 3, 4, 4, 5, 5, 6, 6, 7, 8, 10, 12])
     text = c12.gen_text(rng, n, ascii_only=rng.random() < 0.35)
     if rng.random() < 0.15:
